@@ -10,7 +10,17 @@ import sys
 def main():
     module, func, out = sys.argv[1:4]
     args = json.loads(sys.stdin.read() or "{}")
-    logging.disable(logging.CRITICAL)
+    import os as _os
+
+    if _os.environ.get("VERIF_SHARD_LOGGING") == "debug":
+        # one shard of every check runs with the library's loggers enabled at DEBUG (records built
+        # and dropped): behaviour must not depend on whether somebody listens to the log
+        lg = logging.getLogger("geckolib")
+        lg.setLevel(logging.DEBUG)
+        lg.addHandler(logging.NullHandler())
+        lg.propagate = False
+    else:
+        logging.disable(logging.CRITICAL)
     # hard deadline of this interpreter (the parent's timeout plus a margin): a shard that the parent
     # has given up on must not keep a core busy
     import faulthandler
